@@ -303,6 +303,44 @@ func runC08(c *Ctx) {
 		})
 	}
 	kind := func(v system.Any) string { return strings.SplitN(valToken(v), ":", 2)[0] }
+	// an operand that is read twice (`$this`, a collection-valued variable) has the same value both times, and the
+	// caller's collection is left as supplied: (x op b) op2 x is computed from x, not from an intermediate result
+	{
+		small := []system.Any{system.Integer(7), system.Integer(-3), system.Integer(2147483646), system.Integer(0), system.Decimal(decimal.RequireFromString("2.5")), system.Decimal(decimal.RequireFromString("-0.75"))}
+		for _, x := range small {
+			for _, b := range []system.Any{system.Integer(1), system.Integer(2), system.Decimal(decimal.RequireFromString("0.5"))} {
+				for _, op1 := range arithOps {
+					first := evalWith("%a "+op1.src+" %b", x, b)
+					if first.Err != nil || first.Panicked || len(first.Coll) != 1 {
+						continue
+					}
+					mid, _ := first.Coll[0].(system.Any)
+					for _, op2 := range arithOps {
+						coll := system.Collection{x}
+						forms := []struct {
+							src string
+							a   any
+						}{
+							{"(%a " + op1.src + " %b) " + op2.src + " %a", coll},
+							{"%a.select(($this " + op1.src + " %b) " + op2.src + " $this)", x},
+							{"(%a.first() " + op1.src + " %b) " + op2.src + " %a.first()", coll},
+						}
+						for _, f := range forms {
+							o := evalWith(f.src, f.a, b)
+							msg := checkArith(op2.name, mid, x, o)
+							c.Observe("operand-reuse "+op1.name+"/"+op2.name, true)
+							c.Law(msg == "", "C08/operand-reuse", "an operand read twice has the same value both times: (x op b) op2 x is exact arithmetic on x",
+								fmt.Sprintf("%s with a=%v b=%v", f.src, x, b), msg+"; got "+outTokens(o))
+						}
+						c.Law(len(coll) == 1 && coll[0] == x, "C08/operand-reuse", "the collection supplied as a variable is left as supplied", fmt.Sprintf("(%%a %s %%b) %s %%a with a={%v}", op1.src, op2.src, x), fmt.Sprint(coll))
+						// the same collection supplied to a second evaluation
+						again := evalWith("%a "+op1.src+" %b", coll, b)
+						c.Law(outTokens(again) == outTokens(first), "C08/operand-reuse", "a second evaluation over the same supplied collection gives the same result", fmt.Sprintf("%%a %s %%b with a={%v} b=%v", op1.src, x, b), outTokens(first)+" then "+outTokens(again))
+					}
+				}
+			}
+		}
+	}
 	for pi, p := range pairs {
 		ea, eb := asElement(c.rng, p.a), asElement(c.rng, p.b)
 		for _, op := range arithOps {
